@@ -393,4 +393,52 @@ def loadCols (t : Table) (cf : Option (List String)) : List String :=
   | none => t.cols
   | some want => if t.isEmpty then t.cols else want.filter t.cols.contains
 
+/-! ### an `Artifact` object opened with filter terms
+
+`Artifact.__init__(path, filter_terms)` stores the terms; the only code that reads them is `Artifact.load`
+(`hdf.load(path, key, self._filter_terms, self._draw_column_filter)`). In particular `Artifact.replace`
+reads the copy it keeps for rolling back with `filter_terms=None, column_filters=None`. So the terms
+shape the *view* `load` hands out and nothing else: every operation acts on the store exactly as `step`. -/
+
+/-- an artifact object: the state above plus the filter terms it was constructed with -/
+structure FArt where
+  art   : Art := init
+  terms : List Term := []
+deriving DecidableEq, Repr
+
+inductive FOp where
+  | op (o : Op)
+  | reopenWith (terms : List Term)   -- the harness replaces its artifact by `Artifact(path, filter_terms=terms)`
+deriving DecidableEq, Repr
+
+def FArt.step (fa : FArt) : FOp → FArt × Out
+  | .op o => ({ fa with art := (Artifact.step fa.art o).1 }, (Artifact.step fa.art o).2)
+  | .reopenWith t =>
+    -- `_parse_draw_filters` runs first and raises on two draw terms, before the file is looked at
+    match drawColumns t with
+    | none => (fa, .rejected)
+    | some _ =>
+      match openArtifact fa.art with
+      | some a' => ({ art := a', terms := t }, .ok)
+      | none => (fa, .rejected)
+
+def FArt.run (fops : List FOp) (fa : FArt) : FArt := fops.foldl (fun s o => (s.step o).1) fa
+
+def FOp.key? : FOp → Option Key
+  | .op o => o.key?
+  | .reopenWith _ => none
+
+/-- what `load` hands out for a table node -/
+structure View where
+  rows : List (Nat × List Int)
+  cols : List String
+deriving DecidableEq, Repr
+
+/-- `hdf.load` of a stored table through an artifact with `terms` (`none`: two draw terms – such an
+artifact cannot be constructed) -/
+def viewOf (t : Table) (terms : List Term) : Option View :=
+  match drawColumns terms with
+  | none => none
+  | some cf => some { rows := loadRows t terms, cols := loadCols t cf }
+
 end Viv.Artifact
